@@ -154,7 +154,10 @@ def nbsig(state, lclass, v):
                 out.append((atom, kind, "short", tuple(ends)))
             else:
                 other = ends[1] if ends[0] == v else (ends[0] if ends[1] == v else None)
-                out.append((atom, kind, ends[0] == v, ends[1] == v, other))
+                if kind == "D":
+                    out.append((atom, kind, ends[0] == v, ends[1] == v, other))
+                else:
+                    out.append((atom, kind, other))     # for undirected / other two-ended links only the opposite end matters
         else:
             out.append(atom)
     return tuple(out)
@@ -538,11 +541,11 @@ def explicit_runs(h, res=None, memo="empty", flag=False, thorough=False):
                             made = kcls or {"link_directed": "DirectedEdge", "link_undirected": "UnDirectedEdge"}[fname]
                             J = m_joining(p.model, x, y)
                             if dontdup and J:
-                                mr = J[0]
+                                mr = J[0]      # the statement only says that nothing is created: any joining link may be returned
                             else:
                                 mr = m_create(p.model, made, x, y)
                             post, links = p.post()
-                            yield Rec(family="C", lcls="+".join(c04.KINDS[c] + o for c, o in joins) or "none", ends=(), op=fname, arg=(made, dontdup, swap), out=out, mr=mr, p=p,
+                            yield Rec(family="C", lcls="+".join(c04.KINDS[c] + o for c, o in joins) or "none", ends=(), op=fname, arg=(made, dontdup, swap), out=out, mr=mr, alts=(J if dontdup and J else [mr]), p=p,
                                       pre=p.pre, post=post, links=links, model=p.model, qual=QUAL[fname],
                                       icls=f"joining={len(joins)},selfloop={selfloop},dontdup={dontdup}" + (",ends-list-links-in-different-order" if brev else ""), replay="", choices=(brev,))
 
